@@ -18,7 +18,7 @@ func setup() (*verifenv.Env, *verifenv.Ledger) {
 	bits := verifrt.Param("amount_bits", 127)
 	e := verifenv.NewLedgerEnv(100, no)
 	total := verifrt.Int("staking_total")
-	verifrt.Assume(!total.IsNegative() && total.LTE(sdkmath.NewInt(8).Mul(verifPow2(bits))))
+	verifrt.Assume(verifrt.All(!total.IsNegative(), total.LTE(sdkmath.NewInt(8).Mul(verifPow2(bits)))))
 	e.RegisterAsset(verifenv.LSTAddrHex, 18, total)
 	l := verifenv.NewSymbolicLedger(e, ns, no, verifenv.LSTAssetID(), bits)
 	l.AssumeStakingTotalCovers(total)
@@ -38,7 +38,7 @@ func VerifC01Delegate() {
 		l.AssertSame(pre, post, "failed delegation leaves the ledger unchanged")
 		return
 	}
-	verifrt.Assert(x.IsPositive() && x.LTE(pre.Withdrawable[s]), "delegation accepted only within the withdrawable balance")
+	verifrt.Assert(verifrt.All(x.IsPositive(), x.LTE(pre.Withdrawable[s])), "delegation accepted only within the withdrawable balance")
 	verifrt.Assert(post.Sigma().Equal(pre.Sigma()), "delegation does not change the ledger sum")
 	verifrt.Assert(post.Withdrawable[s].Equal(pre.Withdrawable[s].Sub(x)), "withdrawable decreases by exactly x")
 	verifrt.Assert(post.PoolAmount[o].Equal(pre.PoolAmount[o].Add(x)), "pool increases by exactly x")
@@ -66,7 +66,7 @@ func VerifC01Undelegate() {
 		return
 	}
 	removed := pre.PoolAmount[o].Sub(post.PoolAmount[o])
-	verifrt.Assert(!removed.IsNegative() && removed.LTE(pre.PoolAmount[o]), "removed tokens are within the pool")
+	verifrt.Assert(verifrt.All(!removed.IsNegative(), removed.LTE(pre.PoolAmount[o])), "removed tokens are within the pool")
 	verifrt.Assert(post.Sigma().Equal(pre.Sigma()), "undelegation moves tokens from the pool to pending; the ledger sum is unchanged")
 	verifrt.Assert(post.Liquid().Equal(pre.Liquid().Sub(removed)), "tokens leaving the pool are not credited anywhere else")
 	verifrt.Assert(post.PoolPending[o].Equal(pre.PoolPending[o].Add(removed)), "operator pending figure grows by exactly the removed tokens")
@@ -75,11 +75,11 @@ func VerifC01Undelegate() {
 	verifrt.Assert(post.Withdrawable[s].Equal(pre.Withdrawable[s]), "withdrawable untouched until completion")
 	verifrt.Assert(post.StakingTotal.Equal(pre.StakingTotal), "staking total untouched by undelegation")
 	recs, rerr := e.Deleg.GetStakerUndelegationRecords(e.Ctx, verifenv.StakerID(s), l.AssetID)
-	verifrt.Assert(rerr == nil && len(recs) == 1, "exactly one pending record is created")
+	verifrt.Assert(verifrt.All(rerr == nil, len(recs) == 1), "exactly one pending record is created")
 	if rerr == nil && len(recs) == 1 {
 		r := recs[0]
-		verifrt.Assert(r.Amount.Equal(removed) && r.ActualCompletedAmount.Equal(removed), "the record owes exactly the removed tokens")
-		verifrt.Assert(r.StakerID == verifenv.StakerID(s) && r.OperatorAddr == verifenv.OperatorBech[o] && r.AssetID == l.AssetID, "the record names the staker, operator and asset")
+		verifrt.Assert(verifrt.All(r.Amount.Equal(removed), r.ActualCompletedAmount.Equal(removed)), "the record owes exactly the removed tokens")
+		verifrt.Assert(verifrt.All(r.StakerID == verifenv.StakerID(s), r.OperatorAddr == verifenv.OperatorBech[o], r.AssetID == l.AssetID), "the record names the staker, operator and asset")
 		verifrt.Assert(r.CompleteBlockNumber >= uint64(e.Ctx.BlockHeight()), "completion height is not in the past")
 	}
 	l.AssertInv(post, l.Assoc, "after undelegate")
@@ -116,7 +116,7 @@ func VerifC01DepositWithdraw() {
 		verifrt.Assert(post.Sigma().Equal(pre.Sigma().Add(x)), "ledger sum increases by exactly x")
 	}
 	for o := 0; o < l.NO; o++ {
-		verifrt.Assert(post.PoolAmount[o].Equal(pre.PoolAmount[o]) && post.PoolShare[o].Equal(pre.PoolShare[o]), "pools untouched by deposit/withdraw")
+		verifrt.Assert(verifrt.All(post.PoolAmount[o].Equal(pre.PoolAmount[o]), post.PoolShare[o].Equal(pre.PoolShare[o])), "pools untouched by deposit/withdraw")
 	}
 	l.AssertInv(post, l.Assoc, "after deposit/withdraw")
 }
@@ -125,7 +125,7 @@ func VerifC01DepositWithdraw() {
 // overflow panic, which DeliverTx recovers; outside this claim), including zero and negatives
 func boundedAmount(l *verifenv.Ledger) sdkmath.Int {
 	x := verifrt.Int("x")
-	verifrt.Assume(x.LTE(l.Max) && x.GTE(l.Max.Neg()))
+	verifrt.Assume(verifrt.All(x.LTE(l.Max), x.GTE(l.Max.Neg())))
 	return x
 }
 
